@@ -166,6 +166,7 @@ func checkC20(c *ctx) {
 			{"underscore", map[string]string{"a_b.go": body("underscore", "RunA", ""), "ab.go": body("underscore", "RunB", "")}},
 			{"oddnames", map[string]string{"my-flow.v2.go": body("oddnames", "Run", "")}},
 			{"lineend", map[string]string{"p.go": lineEnd}},
+			{"crlf", map[string]string{"p.go": strings.ReplaceAll(strings.Replace(body("crlf", "Run", "const banner = `two\nlines`\n\n"), "cff.Params(n)", "cff.Params(n + len(`a\nb`))", 1), "\n", "\r\n")}},
 			{"parend", map[string]string{"p.go": parEnd}},
 		}
 		for _, sp := range spkgs {
